@@ -16,6 +16,7 @@ os.makedirs(out, exist_ok=True)
 hint = {
  "a": "Prefer a change that needs an unusual input or boundary value to manifest.",
  "b": "Prefer a change that needs a multi-step sequence of operations, a particular interleaving, a fault at a particular point, or two cooperating sites that each look fine alone.",
+ "d": "Pick a DIFFERENT clause of the property than the one that comes to mind first: read the whole statement, list its separate claims (each 'and', 'never', 'unless', 'only if', 'at most', 'exactly'), and break one of the less prominent ones - a secondary guarantee, an exception ('unless ...'), a bound, a uniqueness or ordering claim, or the behaviour for the rarer of two modes/directions/versions the statement names. The main, most visible behaviour must stay intact.",
  "c": "Prefer a change that is NOT in the most obvious function for this property: put it in a helper, a caller, a constructor/default, a rarely taken branch (error path, closed connection, cancelled context, legacy protocol version, optional feature switched on) or in the interaction with a neighbouring feature, so that it only manifests in a configuration or path that a straightforward test of the main function would not take.",
 }[variant]
 print(f"""You are helping to evaluate a verification suite by planting ONE realistic bug. You get only the text of a semantic
